@@ -1,7 +1,6 @@
 package main
 
 import (
-	"fmt"
 	"go/ast"
 	"go/parser"
 	"go/token"
@@ -40,7 +39,7 @@ type Facts struct {
 	Codec     map[string]*FuncFacts `json:"codec"`
 	LockProgs map[string][]string   `json:"lock_progs"` // registry functions: micro-operations in order
 	LockStmts map[string][]string   `json:"lock_stmts"` // registry functions: structured statements (LockProg.Stmt)
-	MemProgs  map[string][]string   `json:"mem_progs"`  // reader primitives: memory instructions (Alias.Instr)
+	MemProgs  map[string][][]string `json:"mem_progs"`  // reader primitives: memory instructions (Alias.Instr)
 	CalcFacts map[string][]string   `json:"calc"`       // per Calc method: calls made on its argument
 	Algs      map[string]string     `json:"algorithms"` // service type -> Algorithm() literal
 	InitRegs  []string              `json:"init_registrations"`
@@ -78,7 +77,7 @@ func add(l *[]string, s string) {
 }
 
 func extractFacts(root string) *Facts {
-	fx := &Facts{Codec: map[string]*FuncFacts{}, LockProgs: map[string][]string{}, LockStmts: map[string][]string{}, MemProgs: map[string][]string{}, CalcFacts: map[string][]string{}, Algs: map[string]string{},
+	fx := &Facts{Codec: map[string]*FuncFacts{}, LockProgs: map[string][]string{}, LockStmts: map[string][]string{}, MemProgs: map[string][][]string{}, CalcFacts: map[string][]string{}, Algs: map[string]string{},
 		Imports: map[string][]string{}, Callers: map[string][]string{}}
 	dirs := map[string]string{"codec": "codec"}
 	for _, p := range pkgs {
@@ -112,6 +111,9 @@ func extractFacts(root string) *Facts {
 				for _, d := range af.Decls {
 					if fd, ok := d.(*ast.FuncDecl); ok && fd.Body != nil && fd.Recv != nil {
 						codecMethods[fd.Name.Name] = fd
+					}
+					if fd, ok := d.(*ast.FuncDecl); ok && fd.Body != nil && fd.Recv == nil {
+						codecFuncNames[fd.Name.Name] = true
 					}
 					if gd, ok := d.(*ast.GenDecl); ok && gd.Tok == token.TYPE {
 						for _, sp := range gd.Specs {
@@ -425,8 +427,8 @@ func codecFuncFacts(fx *Facts, fd *ast.FuncDecl, fname string, globals map[strin
 	sort.Strings(ff.Orders)
 	sort.Strings(ff.Callees)
 
-	if strings.HasPrefix(fname, "Read") {
-		fx.MemProgs[fname] = memProgram(fd)
+	if strings.HasPrefix(fname, "Read") || returnsMemory(fd) {
+		fx.MemProgs[fname] = memPrograms(fd)
 	}
 	// registry lock programs and services
 	switch fname {
@@ -555,54 +557,27 @@ func lockProgram(fd *ast.FuncDecl) []string {
 	return prog
 }
 
-// memProgram: the memory-relevant instructions of a reader body in source order (the `Instr` language of
-// lean/FinProto/Alias.lean): make / readFull / toString / sub / view / unsafeString / ret, with a simple register
-// assignment (each make / toString / view defines a new register, the others act on the current one).
-func memProgram(fd *ast.FuncDecl) []string {
-	var out []string
-	cur, next := 0, 0
-	ast.Inspect(fd.Body, func(n ast.Node) bool {
-		switch x := n.(type) {
-		case *ast.CallExpr:
-			f := src(x.Fun)
-			switch {
-			case f == "make":
-				if len(x.Args) >= 2 && strings.HasPrefix(src(x.Args[0]), "[]byte") {
-					cur = next
-					next++
-					out = append(out, fmt.Sprintf(".make %d 0", cur))
-				}
-			case f == "io.ReadFull" || f == "buf.Read" || f == "binary.Read":
-				if f == "binary.Read" {
-					cur = next
-					next++
-					out = append(out, fmt.Sprintf(".make %d 0", cur))
-				}
-				out = append(out, fmt.Sprintf(".readFull %d", cur))
-			case f == "string":
-				if len(x.Args) == 1 && src(x.Args[0]) != "padChar" {
-					out = append(out, fmt.Sprintf(".toString %d %d", next, cur))
-					cur = next
-					next++
-				}
-			case f == "buf.Next" || f == "buf.Bytes" || f == "buf.AvailableBuffer":
-				cur = next
-				next++
-				out = append(out, fmt.Sprintf(".view %d 0", cur))
-			case strings.HasPrefix(f, "unsafe."):
-				out = append(out, fmt.Sprintf(".unsafeString %d %d", next, cur))
-				cur = next
-				next++
+// a function whose results include text or bytes (its result could alias the buffer it reads from)
+func returnsMemory(fd *ast.FuncDecl) bool {
+	if fd.Type.Results == nil || fd.Recv != nil {
+		return false
+	}
+	takesBuf := false
+	if fd.Type.Params != nil {
+		for _, p := range fd.Type.Params.List {
+			if typeStr(p.Type) == "*bytes.Buffer" {
+				takesBuf = true
 			}
-		case *ast.SliceExpr:
-			if id, ok := x.X.(*ast.Ident); ok && id.Name != "buf" {
-				out = append(out, fmt.Sprintf(".sub %d %d 0 0", cur, cur))
-			}
-		case *ast.ReturnStmt:
-			// recorded once at the end
 		}
-		return true
-	})
-	out = append(out, fmt.Sprintf(".ret %d", cur))
-	return out
+	}
+	if !takesBuf {
+		return false
+	}
+	for _, r := range fd.Type.Results.List {
+		t := typeStr(r.Type)
+		if strings.Contains(t, "string") || strings.Contains(t, "[]byte") {
+			return true
+		}
+	}
+	return false
 }
